@@ -2,7 +2,10 @@
 pub mod dto;
 pub mod engine;
 pub mod model;
+pub mod oracle_xml;
+#[cfg(feature = "full")]
 pub mod props;
 pub mod refimpl;
 pub mod tape;
+#[cfg(feature = "full")]
 pub mod wiretap;
